@@ -1,3 +1,4 @@
 //! Reference models (the oracles). Written from the README and the doc comments only, in a
 //! deliberately different style from the implementation: integer tags, fixed arrays, explicit loops.
 pub mod builtin;
+pub mod codec;
